@@ -16,11 +16,17 @@ int main(int argc, char** argv)
         vrt::g_cell = vrt::CellStats();
         vrt::g_cell.throwsLeft = (int)x.param("maxthrows", 0);
         LR* lr = x.make<LR>("lr", 0L);
-        static const std::vector<const char*> names{"modify", "read", "read2"};
+        static const std::vector<const char*> names{"modify", "read", "read2", "relay"};
+        // relay bookkeeping (only touched by the thread holding the baton)
+        auto holders = std::make_shared<int>(0);   // acquisition counter: a relay holder lets go only after a later acquisition
+        auto relayLeft = std::make_shared<int>(0);
+        for (auto& pm : vrt::parse_prog(x.rt.cfg.prog))
+            if (!pm.empty() && !pm[0].empty() && pm[0][0] == 3) ++*relayLeft;
         int tid = 0;
         for (auto& menus : vrt::parse_prog(x.rt.cfg.prog)) {
             ++tid;
-            x.worker([lr, menus, tid] {
+            bool isRelay = !menus.empty() && !menus[0].empty() && menus[0][0] == 3;
+            x.worker([lr, menus, tid, holders, relayLeft, isRelay] {
                 for (auto& menu : menus) {
                     int op = vrt::pick_and_call(menu, names);
                     long r = 0;
@@ -37,6 +43,14 @@ int main(int argc, char** argv)
                     } else {
                         auto h = lr->lock_shared();
                         vrt::log_ev("hget", "cell", h->id);
+                        int ticket = ++*holders;
+                        if (op == 3) {
+                            // hold the handle until somebody else has taken one after me (or no other relay thread is left):
+                            // from the first acquisition on, at least one handle is held at every moment
+                            int others = isRelay ? 1 : 0;
+                            vrt::block_until("relay", "a later holder", [&] { return *holders > ticket || *relayLeft - others <= 0; });
+                            vrt::log_ev("relay", "");
+                        }
                         r = h->read();
                         if (op == 2) {
                             long r2 = h->read();
@@ -47,6 +61,7 @@ int main(int argc, char** argv)
                     }
                     vrt::ret_ev(names[(size_t)op], r);
                 }
+                if (isRelay) --*relayLeft;
             });
         }
         x.run();
